@@ -1,7 +1,242 @@
-(* C05 — bucket lifecycle is a keyed map (work in progress: statements are added as they are proved). *)
-From AwVerif Require Import Base.Prelude Model.StoreBase Model.Datastore.
+(* C05 — bucket lifecycle: create, list, describe, update, delete behave as a keyed map.
+   Property statements only: each theorem is closed by [exact <lemma>] and followed by
+   Print Assumptions.
 
-Theorem C05_handle_is_a_name : forall S (step : S -> op -> S * res out) d h o,
-  ds_step step d (DsVia h o) = ds_call step d (hop_op (h_bucket h) o).
-Proof. reflexivity. Qed.
+   Models: Model/Datastore.v (Datastore / Bucket classes: `ds_step`) over Model/MemStore.v,
+   SqliteStore.v, PeeweeStore.v (the three storages).  Vocabulary (Proofs/LifecycleBase.v,
+   Proofs/Lifecycle.v):
+     backend            a storage model with its observation b_view, the keyed map b_map its
+                        states denote and the invariant b_inv of its reachable states;
+     is_backend B       B is memB, sqB or pwB;
+     ds_do B d o        one Datastore / Bucket call o on state d = (storage state,
+                        bucket_instances, number of Bucket objects built): new state and result;
+     ds_after B d h     state after the history h;  ds_start B the fresh Datastore;
+     ds_view B d b      Some (metadata, events in storage order) of bucket b, None if absent;
+     ds_map B d         the whole keyed map (listing order);  ds_listing B d = what ds.buckets() returns;
+     ds_inv B d         storage invariant + every cached handle names an existing bucket
+                        (holds after every history without a delete behind the Datastore's back:
+                        C05_reachable_inv);
+     stored_as m m'     m' carries exactly the type, client, hostname, creation instant and data of m,
+                        and its name when one was given (label 0 = empty string);
+     updated_meta ..    exactly the supplied fields replaced;  nonempty o: a supplied value is not
+                        the empty string / empty dict. *)
+From AwVerif Require Import Base.Prelude Model.StoreBase Model.MemStore Model.SqliteStore
+  Model.PeeweeStore Model.Datastore
+  Proofs.LifecycleBase Proofs.LifecycleMem Proofs.LifecycleSqlite Proofs.LifecyclePeewee
+  Proofs.Lifecycle Proofs.LifecycleTheorems.
+
+(* The abstraction the theorems speak about is what the API shows: ds_view is a lookup in the
+   keyed map, buckets() returns its listing (state unchanged), ids are listed once. *)
+Theorem C05_map_is_view_and_listing : forall B, is_backend B -> forall d : ds_state B,
+  (forall b, ds_view B d b = aget b (ds_map B d)) /\
+  b_step B (ds_store d) Buckets = (ds_store d, Ok (OBuckets (ds_listing B d))) /\
+  (ds_inv B d -> NoDup (map fst (ds_listing B d))).
+Proof. exact t_map_view_listing. Qed.
+Print Assumptions C05_map_is_view_and_listing.
+
+(* A created bucket is listed (last) with exactly the metadata it was given and starts empty;
+   nothing else moves; the call returns a handle on a Bucket object built by this very call. *)
+Theorem C05_create : forall B, is_backend B -> forall (d : ds_state B) b m,
+  ds_inv B d -> ds_view B d b = None ->
+  exists d' m',
+    ds_do B d (DsCreate b m) = (d', Ok (DHandle (mkHandle (ds_next d) b))) /\
+    stored_as m m' /\
+    ds_map B d' = ds_map B d ++ [(b, (m', []))] /\
+    ds_listing B d' = ds_listing B d ++ [(b, m')] /\
+    ds_view B d' b = Some (m', []) /\
+    (forall b', b' <> b -> ds_view B d' b' = ds_view B d b') /\
+    aget b (ds_cache d') = Some (ds_next d) /\
+    ds_inv B d'.
+Proof. exact t_create. Qed.
+Print Assumptions C05_create.
+
+(* An update (non-empty values) changes exactly the supplied fields of that bucket; its events,
+   every other bucket, the set and order of listed ids and the cache stay.  (With no field at
+   all sqlite raises ValueError, the others return; nothing changes either way.) *)
+Theorem C05_update : forall B, is_backend B -> forall (d : ds_state B) b ty cl ho na da m es,
+  ds_inv B d -> ds_view B d b = Some (m, es) ->
+  nonempty ty -> nonempty cl -> nonempty ho -> nonempty na -> nonempty da ->
+  exists d' r,
+    ds_do B d (DsUpdate b ty cl ho na da) = (d', r) /\
+    ((exists o, r = Ok (DOut o)) \/
+     (r = Err ValueError /\ ty = None /\ cl = None /\ ho = None /\ na = None /\ da = None)) /\
+    ds_map B d' = aset b (updated_meta ty cl ho na da m, es) (ds_map B d) /\
+    ds_view B d' b = Some (updated_meta ty cl ho na da m, es) /\
+    (forall b', b' <> b -> ds_view B d' b' = ds_view B d b') /\
+    map fst (ds_listing B d') = map fst (ds_listing B d) /\
+    ds_cache d' = ds_cache d /\
+    ds_inv B d'.
+Proof. exact t_update. Qed.
+Print Assumptions C05_update.
+
+(* Deleting removes the entry (with its events) and the cached handle; other buckets stay. *)
+Theorem C05_delete : forall B, is_backend B -> forall (d : ds_state B) b v,
+  ds_inv B d -> ds_view B d b = Some v ->
+  exists d' o,
+    ds_do B d (DsDelete b) = (d', Ok (DOut o)) /\
+    ds_map B d' = adel b (ds_map B d) /\
+    ds_listing B d' = adel b (ds_listing B d) /\
+    ds_view B d' b = None /\
+    (forall b', b' <> b -> ds_view B d' b' = ds_view B d b') /\
+    aget b (ds_cache d') = None /\
+    ds_inv B d'.
+Proof. exact t_delete. Qed.
+Print Assumptions C05_delete.
+
+(* "together with all of its events", at the level of the tables: no event row of the deleted
+   bucket's rowid / key is left (this, not the vanished bucket row, is why a re-used peewee key
+   cannot adopt old events), and no reachable state holds a row without a listed owner. *)
+Theorem C05_delete_rows_sqlite : forall c b r,
+  In r (sq_buckets c) -> br_id r = b ->
+  forall e, In e (sq_events (fst (sq_step c (DeleteBucket b)))) -> er_bucket e <> br_rowid r.
+Proof. exact t_delete_rows_sqlite. Qed.
+Print Assumptions C05_delete_rows_sqlite.
+
+Theorem C05_delete_rows_peewee : forall c b k,
+  pw_key c b = Some k ->
+  forall e, In e (pw_events (fst (pw_step c (DeleteBucket b)))) -> pe_bucket e <> k.
+Proof. exact t_delete_rows_peewee. Qed.
+Print Assumptions C05_delete_rows_peewee.
+
+Theorem C05_no_orphan_rows_sqlite : forall h,
+  Forall (fun e => In (er_bucket e) (map br_rowid (sq_buckets (ds_store (ds_after sqB (ds_start sqB) h)))))
+         (sq_events (ds_store (ds_after sqB (ds_start sqB) h))).
+Proof. exact t_no_orphan_rows_sqlite. Qed.
+Print Assumptions C05_no_orphan_rows_sqlite.
+
+Theorem C05_no_orphan_rows_peewee : forall h,
+  Forall (fun e => In (pe_bucket e) (map pb_key (pw_buckets (ds_store (ds_after pwB (ds_start pwB) h)))))
+         (pw_events (ds_store (ds_after pwB (ds_start pwB) h))).
+Proof. exact t_no_orphan_rows_peewee. Qed.
+Print Assumptions C05_no_orphan_rows_peewee.
+
+(* Delete, then ANY further history (other buckets created and deleted, events written,
+   reads and writes through handles of the deleted bucket ...) that leaves the id absent, then
+   create: the bucket is empty. *)
+Theorem C05_recreate_empty : forall B, is_backend B -> forall (d : ds_state B) b v m h,
+  ds_inv B d -> ds_view B d b = Some v -> Forall cache_safe h ->
+  let d1 := fst (ds_do B d (DsDelete b)) in
+  let d2 := ds_after B d1 h in
+  ds_view B d2 b = None ->
+  exists d3 m',
+    ds_do B d2 (DsCreate b m) = (d3, Ok (DHandle (mkHandle (ds_next d2) b))) /\
+    stored_as m m' /\ ds_view B d3 b = Some (m', []).
+Proof. exact t_recreate_empty. Qed.
+Print Assumptions C05_recreate_empty.
+
+(* A bucket that does not exist: lookup raises KeyError, describing / updating (any
+   arguments) / deleting raises ValueError, and the whole state (storage, cache) is unchanged. *)
+Theorem C05_missing_raises : forall B, is_backend B -> forall (d : ds_state B) b,
+  ds_inv B d -> ds_view B d b = None ->
+  ds_do B d (DsGetItem b) = (d, Err KeyError) /\
+  (forall h, h_bucket h = b -> ds_do B d (DsVia h HMetadata) = (d, Err ValueError)) /\
+  (forall ty cl ho na da, ds_do B d (DsUpdate b ty cl ho na da) = (d, Err ValueError)) /\
+  ds_do B d (DsDelete b) = (d, Err ValueError).
+Proof. exact t_missing_raises. Qed.
+Print Assumptions C05_missing_raises.
+
+(* Describing an existing bucket returns its id and metadata and changes nothing. *)
+Theorem C05_describe : forall B, is_backend B -> forall (d : ds_state B) h m es,
+  ds_inv B d -> ds_view B d (h_bucket h) = Some (m, es) ->
+  ds_do B d (DsVia h HMetadata) = (d, Ok (DOut (OMeta (h_bucket h) m))).
+Proof. exact t_describe. Qed.
+Print Assumptions C05_describe.
+
+(* ds_inv holds after every history of Datastore / Bucket / direct storage calls that does not
+   delete a bucket behind the Datastore's back (arguments arbitrary: existing ids re-created,
+   empty update values, dead or foreign event ids, missing buckets). *)
+Theorem C05_reachable_inv : forall B, is_backend B -> forall h,
+  Forall cache_safe h -> ds_inv B (ds_after B (ds_start B) h).
+Proof. exact t_reachable_inv. Qed.
+Print Assumptions C05_reachable_inv.
+
+(* The cache: every cached handle names an existing bucket; ds[b] succeeds exactly for existing
+   buckets, returns a handle addressing b (the cached one from then on) and leaves the storage
+   alone. *)
+Theorem C05_cache_coherent : forall B, is_backend B -> forall (d : ds_state B), ds_inv B d ->
+  (forall b n, aget b (ds_cache d) = Some n -> ds_view B d b <> None) /\
+  (forall b, (exists d' hd, ds_do B d (DsGetItem b) = (d', Ok (DHandle hd))) <-> ds_view B d b <> None) /\
+  (forall b d' hd, ds_do B d (DsGetItem b) = (d', Ok (DHandle hd)) ->
+     h_bucket hd = b /\ ds_store d' = ds_store d /\ aget b (ds_cache d') = Some (h_serial hd) /\ ds_inv B d').
+Proof. exact t_cache_coherent. Qed.
+Print Assumptions C05_cache_coherent.
+
+(* A handle is only a name: a handle obtained before a delete + re-create and the one obtained
+   after it issue the same storage call, so both address the new bucket. *)
+Theorem C05_handle_is_a_name : forall B (d : ds_state B) h1 h2 o,
+  h_bucket h1 = h_bucket h2 -> ds_do B d (DsVia h1 o) = ds_do B d (DsVia h2 o).
+Proof. exact t_handle_is_a_name. Qed.
 Print Assumptions C05_handle_is_a_name.
+
+(* What the cache does NOT guarantee: delete a bucket through ds.storage_strategy and ds[b]
+   keeps succeeding for a bucket that does not exist; describing it raises ValueError. *)
+Theorem C05_cache_stale_after_raw_delete : forall B, is_backend B ->
+  let d := ds_after B (ds_start B) [DsCreate 1 (mkMeta 1 2 3 0 None 0); DsRaw (DeleteBucket 1)] in
+  ds_view B d 1 = None /\
+  ds_do B d (DsGetItem 1) = (d, Ok (DHandle (mkHandle 0 1))) /\
+  snd (ds_do B d (DsVia (mkHandle 0 1) HMetadata)) = Err ValueError.
+Proof. exact t_stale_after_raw_delete. Qed.
+Print Assumptions C05_cache_stale_after_raw_delete.
+
+(* Histories: for every history of lifecycle calls mixed with event reads and writes (through
+   any handle) and direct storage calls, in which ids are created only while absent and update
+   values are non-empty, ds.buckets() lists exactly the reference keyed map: same ids, same
+   order, each with the metadata it was given and then updated to. *)
+Theorem C05_refines_map : forall B, is_backend B -> forall h,
+  admissible_history [] h ->
+  agrees (ref_run [] h) (ds_listing B (ds_after B (ds_start B) h)).
+Proof. exact t_refines_map. Qed.
+Print Assumptions C05_refines_map.
+
+(* ---- non-vacuity ---- *)
+
+(* an admissible, cache-safe history with updates, a delete of a non-empty bucket, writes through
+   the stale handle while the id is absent, and a re-creation; what each back end lists at the
+   end, and the re-created bucket 1 holding only the event written after the re-creation *)
+Definition demo : list dsop :=
+  let h1 := mkHandle 0 1 in
+  [DsCreate 1 (mkMeta 4 5 6 0 None 2); DsCreate 2 (mkMeta 4 5 6 1 (Some 8) 0);
+   DsVia h1 (HInsert (mkEvent None 10 5 1)); DsVia h1 (HInsertMany [mkEvent None 20 5 2; mkEvent None 30 0 3]);
+   DsUpdate 1 (Some 7) None None (Some 9) None; DsGetItem 1; DsBuckets;
+   DsDelete 1; DsGetItem 1; DsVia h1 HMetadata; DsVia h1 (HInsert (mkEvent None 40 1 4));
+   DsUpdate 1 (Some 4) None None None None; DsDelete 1;
+   DsCreate 1 (mkMeta 1 2 3 2 None 0); DsVia h1 (HInsert (mkEvent None 50 1 5));
+   DsVia (mkHandle 2 1) (HGet (-1) None None)].
+
+Example C05_demo_in_domain : admissible_history [] demo /\ Forall cache_safe demo.
+Proof.
+  split.
+  - cbn. repeat split; try discriminate; exact I.
+  - repeat constructor.
+Qed.
+
+Example C05_demo_reference :
+  ref_run [] demo = [(2, mkMeta 4 5 6 1 (Some 8) 0); (1, mkMeta 1 2 3 2 None 0)].
+Proof. vm_compute. reflexivity. Qed.
+
+Example C05_demo_memory :
+  ds_map memB (ds_after memB (ds_start memB) demo) =
+  [(2, (mkMeta 4 5 6 1 (Some 8) 0, [])); (1, (mkMeta 1 2 3 2 (Some 1) 0, [mkEvent (Some 0) 50 1 5]))].
+Proof. vm_compute. reflexivity. Qed.
+
+Example C05_demo_sqlite :
+  ds_map sqB (ds_after sqB (ds_start sqB) demo) =
+  [(2, (mkMeta 4 5 6 1 (Some 8) 0, [])); (1, (mkMeta 1 2 3 2 None 0, [mkEvent (Some 4) 50 1 5]))].
+Proof. vm_compute. reflexivity. Qed.
+
+Example C05_demo_peewee :
+  ds_map pwB (ds_after pwB (ds_start pwB) demo) =
+  [(2, (mkMeta 4 5 6 1 (Some 8) 0, [])); (1, (mkMeta 1 2 3 2 None 0, [mkEvent (Some 1) 50 1 5]))].
+Proof. vm_compute. reflexivity. Qed.
+
+(* peewee: delete the NEWEST bucket (key 2) while it holds events, create another id: it is
+   issued key 2 again and starts empty; the events table holds no row of key 2 *)
+Example C05_peewee_key_reuse :
+  let h := [DsCreate 1 (mkMeta 1 1 1 0 None 0); DsCreate 2 (mkMeta 1 1 1 0 None 0);
+            DsVia (mkHandle 1 2) (HInsertMany [mkEvent None 10 1 1; mkEvent None 20 1 2]);
+            DsDelete 2; DsCreate 3 (mkMeta 2 2 2 1 None 0)] in
+  let c := ds_store (ds_after pwB (ds_start pwB) h) in
+  map (fun r => (pb_id r, pb_key r)) (pw_buckets c) = [(1, 1); (3, 2)] /\
+  pw_events c = [] /\
+  pw_view c 3 = Some (mkMeta 2 2 2 1 None 0, []).
+Proof. vm_compute. auto. Qed.
